@@ -618,6 +618,18 @@ upipe_h265f_stream_parse_short_term_ref_pic_set(struct ubuf_block_stream *s,
         int *delta_poc_s0 = delta_poc[idx];
         bool *used_by_curr_pic_s0 = used_by_curr_pic[idx];
 
+        /* The new set holds at most one picture per picture of the reference
+         * set, plus one: it must fit into max_dec_pic_buffering_1 entries. */
+        int num_pics = 0;
+        for (int j = 0; j < num_delta_pocs; j++) {
+            if (delta_poc[ref_idx][j] + delta_rps != 0 && use_delta_flag[j])
+                num_pics++;
+        }
+        if (delta_rps != 0 && use_delta_flag[num_delta_pocs])
+            num_pics++;
+        if (num_pics > max_dec_pic_buffering_1)
+            return false;
+
         i = 0;
         for (int j = num_positive_pics[ref_idx] - 1; j >= 0; j--) {
             int k = num_negative_pics[ref_idx] + j;
@@ -670,8 +682,9 @@ upipe_h265f_stream_parse_short_term_ref_pic_set(struct ubuf_block_stream *s,
         if (num_negative_pics[idx] > max_dec_pic_buffering_1)
             return false;
         num_positive_pics[idx] = upipe_h26xf_stream_ue(s);
-        if (num_positive_pics[idx] + num_negative_pics[idx] >
-            max_dec_pic_buffering_1)
+        /* (not the sum: it wraps) */
+        if (num_positive_pics[idx] >
+            max_dec_pic_buffering_1 - num_negative_pics[idx])
             return false;
         for (int i = 0, d_poc = 0; i < num_negative_pics[idx]; i++) {
             d_poc -= upipe_h26xf_stream_ue(s) + 1;
@@ -959,6 +972,13 @@ static bool upipe_h265f_activate_sps(struct upipe *upipe, uint32_t sps_id)
         max_dec_pic_buffering_1 = upipe_h26xf_stream_ue(s);
         upipe_h26xf_stream_ue(s); /* max_num_reorder_pics */
         upipe_h26xf_stream_ue(s); /* max_latency_increase */
+    }
+
+    if (max_dec_pic_buffering_1 > 15) {
+        upipe_err_va(upipe, "invalid SPS (max_dec_pic_buffering %"PRIu32")",
+                     max_dec_pic_buffering_1);
+        ubuf_block_stream_clean(s);
+        return false;
     }
 
     upipe_h26xf_stream_ue(s); /* min_luma_coding_block_size */
